@@ -198,42 +198,53 @@ def apply_op(sx, pool, i, kind, preset=None):
         want = list(base.get_flat_type_info(base).keys()) + ['extra%d' % i]
         return ('subclass(%s)' % t, set(), new, [list(new.get_flat_type_info(new).keys()) == want])
     if kind in ('append', 'insert'):
-        t = 'C'
-        fname = sx.choose('fname%d' % i, [f for f in ['later', 'extra', 'zz'] if f not in pool['C']._type_info])
+        t = sx.choose('target%d' % i, ['C', 'S'])
+        T = pool[t]
+        fname = sx.choose('fname%d' % i, [f for f in ['later', 'extra', 'zz']
+                                          if f not in pool['S'].get_flat_type_info(pool['S'])])
         ftype = sx.choose('ftype%d' % i, [Unicode, Integer])
-        before = {n: list(pool[n].get_flat_type_info(pool[n]).keys()) for n in names
-                  if issubclass(pool[n], ComplexModel.__mro__[1]) and not issubclass(pool[n], Array)}
+        cplx = [n for n in names if issubclass(pool[n], ComplexModel.__mro__[1]) and not issubclass(pool[n], Array)]
+        before = {n: list(pool[n].get_flat_type_info(pool[n]).keys()) for n in cplx}
+        own_all = {n: list(pool[n]._type_info.keys()) for n in cplx}
         if kind == 'append':
-            pool[t].append_field(fname, ftype)
+            idx = len(T._type_info)
+            T.append_field(fname, ftype)
         else:
-            pool[t].insert_field(0, fname, ftype)
+            idx = sx.choose('index%d' % i, [0, -1] if sx.tier == 'quick' else [0, 1, -1, 2, -2])
+            T.insert_field(idx, fname, ftype)
         changed = set()
         chk = []
-        for n in before:
+        for n in cplx:
             m = pool[n]
             root = getattr(m, '__orig__', None) or m
-            derived = (root is pool['C']) or issubclass(m, pool['C']) or \
-                (getattr(m, '__orig__', None) is not None and issubclass(m.__orig__, pool['C']))
-            if derived:
+            if root is T:
+                # the class and each of its variants get the field at the position list.insert() gives it
                 changed.add(n)
-                now = list(m.get_flat_type_info(m).keys())
-                # the new field appears once, in declaration order: parents first
-                chk.append(now.count(fname) == 1)
-                chk.append([x for x in now if x != fname] == before[n])
-                if kind == 'append' and n in ('C', 'V') or (getattr(m, '__orig__', None) is pool['C']):
-                    own = list(m._type_info.keys())
-                    chk.append(own[-1] == fname if kind == 'append' else own[0] == fname)
-                if fname in m._type_info:
-                    # the added field carries exactly what this variant asked for (child_attrs for a
-                    # field that did not exist yet, child_attrs_all) and nothing another variant asked for
-                    ft = m._type_info[fname]
-                    want = dict(PENDING_ALL.get(id(m), {}))
-                    want.update(PENDING.get(id(m), {}).get(fname, {}))
-                    chk.append(sx.eq(ft.Attributes.min_occurs, want.get('min_occurs', ftype.Attributes.min_occurs)))
-                    if ftype is Unicode:
-                        chk.append(sx.eq(ft.Attributes.max_len, want.get('max_len', ftype.Attributes.max_len)))
-        changed.add('A')     # Array(C) holds a variant of C
-        return ('C.%s_field(%s)' % (kind, fname), changed, None, chk)
+                want_own = list(own_all[n])
+                want_own.insert(idx, fname)
+                chk.append(list(m._type_info.keys()) == want_own)
+            elif issubclass(root, T):
+                # subclasses (and their variants) see it through the parent only: own fields are untouched
+                changed.add(n)
+                chk.append(list(m._type_info.keys()) == own_all[n])
+            else:
+                continue
+            now = list(m.get_flat_type_info(m).keys())
+            # the new field appears once, in declaration order: parents first
+            chk.append(now.count(fname) == 1)
+            chk.append([x for x in now if x != fname] == before[n])
+            if fname in m._type_info:
+                # the added field carries exactly what this variant asked for (child_attrs for a
+                # field that did not exist yet, child_attrs_all) and nothing another variant asked for
+                ft = m._type_info[fname]
+                want = dict(PENDING_ALL.get(id(m), {}))
+                want.update(PENDING.get(id(m), {}).get(fname, {}))
+                chk.append(sx.eq(ft.Attributes.min_occurs, want.get('min_occurs', ftype.Attributes.min_occurs)))
+                if ftype is Unicode:
+                    chk.append(sx.eq(ft.Attributes.max_len, want.get('max_len', ftype.Attributes.max_len)))
+        if t == 'C':
+            changed.add('A')     # Array(C) holds a variant of C
+        return ('%s.%s_field(%s)' % (t, kind, fname), changed, None, chk)
     raise ValueError(kind)
 
 
